@@ -2789,15 +2789,21 @@ class HasTraits(CHasTraits, metaclass=MetaHasTraits):
             return
         locked = info[""]
         locked[name] = None
+        changed_list = getattr(self, name)
         for object, object_name in info[name].values():
             object = object()
             if object_name not in object._get_sync_trait_info()[""]:
                 try:
+                    partner_list = getattr(object, object_name)
+                    if partner_list is changed_list:
+                        # A partner that is not a List trait (e.g. Any) can
+                        # hold this very list object; it has changed already.
+                        continue
                     if event.added or index.step is None:
-                        getattr(object, object_name)[index] = event.added
+                        partner_list[index] = event.added
                     else:
                         # Deletion of an extended slice.
-                        del getattr(object, object_name)[index]
+                        del partner_list[index]
                 except:
                     pass
 
